@@ -29,9 +29,10 @@ import (
 var prop = flag.String("prop", "c03", "c03|c05|c13: which generator streams to run")
 
 // probeMalformedAuth adds responses whose authenticator option data is not 28 bytes long to the
-// SPAO stream. Off by default: with a key available the client panics on them in
+// SPAO stream (and empty paths of an unregistered type). On by default since the repair dd91497;
+// before it, with a key available, the client panicked on them in
 // scion.PacketAuthOptMetadata (reported finding, C08's clause; see notes/C13.md).
-var probeMalformedAuth = flag.Bool("probe-malformed-auth", false, "SPAO stream: include authenticator options of wrong length")
+var probeMalformedAuth = flag.Bool("probe-malformed-auth", true, "SPAO stream: include authenticator options of wrong length")
 
 func i64(s string) int64 {
 	v, err := strconv.ParseInt(s, 10, 64)
